@@ -1,11 +1,16 @@
 """Long-lived runner processes: one scenario in, one history out, with crash/hang detection."""
 import json
 import os
+import re
 import select
 import signal
 import subprocess
+import tempfile
 
 from . import build
+
+
+MEMCHECK_STATUS = 97
 
 
 class Runner:
@@ -16,7 +21,16 @@ class Runner:
         self.buf = b""
 
     def start(self):
-        self.proc = subprocess.Popen([self.path], stdin=subprocess.PIPE, stdout=subprocess.PIPE,
+        cmd = [self.path]
+        self.vglog = None
+        if self.config.endswith("@memcheck"):
+            # the same binary under valgrind's memcheck: the process ends at the first invalid read/write/free (status 97).
+            # Catches what the use-after-reclaim hook cannot see: accesses through raw pointers and borrow guards.
+            fd, self.vglog = tempfile.mkstemp(prefix="verif-vg-", suffix=".log")
+            os.close(fd)
+            cmd = ["valgrind", "-q", "--error-exitcode=%d" % MEMCHECK_STATUS, "--exit-on-first-error=yes",
+                   "--undef-value-errors=no", "--log-file=" + self.vglog, self.path]
+        self.proc = subprocess.Popen(cmd, stdin=subprocess.PIPE, stdout=subprocess.PIPE,
                                      stderr=subprocess.DEVNULL, bufsize=0)
         self.buf = b""
 
@@ -43,6 +57,12 @@ class Runner:
                 except Exception:
                     pass
             self.proc = None
+            if getattr(self, "vglog", None):
+                try:
+                    os.remove(self.vglog)
+                except OSError:
+                    pass
+                self.vglog = None
 
     def run(self, scenario, timeout=30.0):
         """Returns the history dict, or {"crash": desc} / {"hang": True}."""
@@ -88,7 +108,18 @@ class Runner:
             rc = self.proc.wait(timeout=5)
         except Exception:
             pass
+        report = ""
+        if rc == MEMCHECK_STATUS and getattr(self, "vglog", None):
+            try:
+                lines = [re.sub(r"^==\d+== ?", "", l.rstrip()) for l in open(self.vglog, errors="replace")]
+                body = [l.strip() for l in lines if l.strip() and not l.startswith("Thread ")]
+                keep = body[:1] + [l for l in body if "yarel::" in l][:4] + [l for l in body if l.startswith("Address ")][:1]
+                report = " | ".join(keep)
+            except OSError:
+                pass
         self.stop()
+        if rc == MEMCHECK_STATUS:
+            return {"crash": "memcheck: " + (report or "invalid memory access")}
         if rc is not None and rc < 0:
             try:
                 name = signal.Signals(-rc).name
